@@ -74,3 +74,17 @@ CHECKS["C15"] = {
             "uninitialised (poisoned) element in any result.",
     "note": _NOTE,
 }
+
+CHECKS["C03"] = {
+    "design_ref": "DESIGN.md section 5 C03",
+    "technique": "runtime trace monitor of the keyword values each metric "
+                 "function receives while evaluate() runs + differential monitor "
+                 "against direct calls on independently pre-processed inputs",
+    "text": "For every observed evaluate() call of the 13 tasks: the key set was "
+            "the documented one, every value a real scalar, every value "
+            "bit-identical to the public metric function called directly with the "
+            "documented parameter on inputs pre-processed by an independent "
+            "implementation, the recorded call trace carried the documented forced "
+            "parameters, and a junk keyword changed nothing.",
+    "note": _NOTE,
+}
